@@ -186,7 +186,7 @@ struct St {
     next_tok: u32,
     replied: BTreeMap<u64, u32>,
     dup_sent: BTreeSet<u64>,
-    unknown_sent: [bool; 2],
+    unknown_sent: [bool; 5],
     eof_sent: bool,
     err_sent: bool,
     park_depth: u32,
@@ -209,7 +209,9 @@ pub struct World {
 }
 
 const HORIZON: u32 = 2000;
-const UNKNOWN_IDS: [u64; 2] = [99, u64::MAX];
+/// ids no call ever used: a small one, the largest, and ids that agree with the first calls' ids
+/// (0, 1) in their low 32 bits / all bits but the top one
+const UNKNOWN_IDS: [u64; 5] = [99, u64::MAX, 1 << 32, (1 << 32) + 1, 1 << 63];
 
 fn mk_ctx(log: &Log, deadline_ms: i64, idx: usize, sampled: bool) -> context::Context {
     let mut ctx = context::current();
@@ -256,8 +258,11 @@ impl World {
             let payload = i as u32;
             let fut: CallFut = match c.handle {
                 Handle::Own => {
+                    // through the `Stub` trait, as the generated clients and the retry / load
+                    // balancing stubs call a channel (the other handle kinds use the inherent
+                    // method)
                     let ch = (*root).clone();
-                    Box::pin(async move { ch.call(ctx, payload).await })
+                    Box::pin(async move { tarpc::client::stub::Stub::call(&ch, ctx, payload).await })
                 }
                 Handle::Root => {
                     let ch = root.clone();
@@ -309,7 +314,7 @@ impl World {
             next_tok: 1000,
             replied: BTreeMap::new(),
             dup_sent: BTreeSet::new(),
-            unknown_sent: [false; 2],
+            unknown_sent: [false; 5],
             eof_sent: false,
             err_sent: false,
             park_depth: 0,
